@@ -95,7 +95,7 @@ func main() {
 			"the same http formats read again and again (passes=0 with a limit: files without entries, last entry cut after its size line), bodies around and above the 1 MiB chunk of readSized, " +
 			"the generic JSON provider (plugin type json) over MultiPassReader (sources without ammo, truncated last ammo, passes 0..3), a metamorphic prefix run of every format (good alone vs good++junk), " +
 			"placeholders into typed fields; jsonline files of a safe JSON subset (object streams, arrays, refused files, truncated and garbled values) predicted entry by entry under every passes x limit x preload combination, " +
-			"the continue_on_error / headers / uris / chosen_cases options of the http provider (a filter that matches nothing, with and without limits), the `type` value of every plugin of a pool config and every string option of a scenario description set to empty / blank / odd / huge values or left out (YAML and HCL), an injected I/O fault (the read reaching a given byte, the n-th seek to the start) under every format; thorough adds exhaustive enumerations (every file of <= 5 tokens per http format, every name(arg,arg) / header string of <= 6 tokens, every request list of <= 3 items, index x source x length x calls, weight lists of <= 3, JSON sources of <= 4 tokens); " +
+			"the continue_on_error / headers / uris / chosen_cases options of the http provider (a filter that matches nothing, with and without limits), the `type` value of every plugin of a pool config and every string option of a scenario description set to empty / blank / odd / huge values or left out (YAML and HCL), the content of the file of a csv variable source x fields x ignore_first_line x delimiter (records with fewer or more columns than configured, ragged records, no records, quotes) observed through the store of the delivered scenario, the max_ammo_size option of the grpc/json provider and the jsonline decoder (zero, negative, tiny, around the longest line, huge; the file read without and with it), an injected I/O fault (the read reaching a given byte, the n-th seek to the start) under every format; thorough adds exhaustive enumerations (every file of <= 5 tokens per http format, every name(arg,arg) / header string of <= 6 tokens, every request list of <= 3 items, index x source x length x calls, weight lists of <= 3, JSON sources of <= 4 tokens); " +
 			"a case is non-trivial when it reaches the modelled decoder with a non-empty input",
 	})
 }
@@ -250,6 +250,10 @@ func runOnce(input string) string {
 		return runPopt(kv)
 	case "sopt":
 		return runSopt(kv)
+	case "csv":
+		return runCsv(kv)
+	case "mas":
+		return runMas(kv, input)
 	}
 	return "BADINPUT"
 }
@@ -300,13 +304,17 @@ func childMain(mode string, args []string) {
 				done <- runFlt(kv)
 				return
 			}
+			if kv["k"] == "mas" {
+				done <- runMas(kv, input)
+				return
+			}
 			done <- runAmmo(kv, data)
 		}()
 		wait := 15 * time.Second
 		if kv["k"] == "genjson" {
 			wait = 10 * time.Second // driveProvider's own watchdog (8 s) answers first
 		}
-		if kv["k"] == "flt" {
+		if kv["k"] == "flt" || kv["k"] == "mas" {
 			wait = 20 * time.Second // two provider runs, each under driveProvider's watchdog
 		}
 		select {
@@ -421,6 +429,23 @@ func class(input, obs string) string {
 	}
 	if k == "sopt" {
 		k += ":" + kv["kind"] + ":" + kv["fmt"] + ":" + kv["slot"]
+	}
+	if k == "mas" {
+		k += ":" + kv["fmt"]
+		if strings.HasPrefix(kv["mas"], "-") {
+			k += ":negative"
+		} else if len(kv["mas"]) > 6 {
+			k += ":huge"
+		}
+	}
+	if k == "csv" {
+		k += ":" + kv["kind"] + ":" + kv["fmt"]
+		if kv["file"] == "" {
+			k += ":empty"
+		}
+		if kv["fields"] == "-" {
+			k += ":header"
+		}
 	}
 	if k == "genjson" {
 		if kv["hex"] == "" && kv["passes"] != "0" {
